@@ -211,7 +211,14 @@ def _query_case(repo, it, S, spec):
     overlap even when none of its transcripts shares a bin with the query"""
     genes_lay, queries = spec
     genes = [mk_gene(it, [mk_transcript(it, [b], S["PLUS"]) for b in lay], gene_id=f"g{i}") for i, lay in enumerate(genes_lay)]
-    ac = mk_collection(it, genes=genes, start=0, end=1100000)  # explicit bounds: every query below lies inside them
+    # every kind of member takes part in a range query: a feature collection and a variant collection next to the first gene
+    a0, b0 = genes_lay[0][0]
+    from ..genekernel import mk_feature, mk_feature_collection
+    fc = mk_feature_collection(it, [mk_feature(it, [(a0 + 10, a0 + 40)], S["MINUS"], feature_name="f")], feature_collection_id="fc0")
+    mkv = lambda s_, e: it.apply(ClassTok("VariantInterval"), [s_, e, "T", "SNV"], {"variant_name": f"v{s_}"}, None, 0)  # noqa: E731
+    vc = it.apply(ClassTok("VariantIntervalCollection"), [[mkv(a0 + 20, a0 + 21), mkv(a0 + 50, a0 + 52)]], {"variant_collection_id": "vc0"}, None, 0)
+    others = {"fc0": (a0 + 10, a0 + 40), "vc0": (a0 + 20, a0 + 52)}
+    ac = mk_collection(it, genes=genes, feature_collections=[fc], variant_collections=[vc], start=0, end=1100000)  # explicit bounds: every query below lies inside them
     f = repo.fn("gene.collections:AnnotationCollection.query_by_position")
     out = []
     n = 0
@@ -225,6 +232,12 @@ def _query_case(repo, it, S, spec):
             else:
                 want = {f"g{i}" for i, (a, b) in enumerate(spans) if a < qe and qs < b}
             got = {g.fields.get("gene_id") for g in res.fields.get("genes")} if k == "ok" else k + ":" + str(res)
+            if k == "ok":
+                got |= {x.fields.get("feature_collection_id") for x in res.fields.get("feature_collections") or []}
+                got |= {x.fields.get("variant_collection_id") for x in res.fields.get("variant_collections") or []}
+                for oid, (a, b) in others.items():
+                    if (qs <= a and b <= qe) if strict else (a < qe and qs < b):
+                        want.add(oid)
             if got != want:
                 out.append((f"query ({'strict' if strict else 'relaxed'})", f"genes {genes_lay}: query_by_position({qs},{qe}, completely_within="
                             f"{strict}) returns {sorted(got) if isinstance(got, set) else got}; by coordinates the answer is {sorted(want)}",
